@@ -785,7 +785,29 @@ def gen_history(rng, nops):
             push(op)
         except HarnessError:
             continue
-    return {'ops': ops}
+    case = {'ops': ops}
+    if rng.random() < 0.08 and not any(o['op'] == 'new_kwargs' for o in ops):
+        # the same history over columns that are called like parameters of the library's own constructors / methods (keyword construction excluded: there the names ARE the parameters)
+        ren = {'a': 'data', 'b': 'columns', 'c': 'key', 'd': 'axis'}
+
+        import re as _re
+
+        def rn(x):
+            if isinstance(x, str):
+                m_ = _re.fullmatch(r'((?:[pPqQ]_)*)([a-dA-D])((?:_[sStT])*)', x)      # also the names derived from them by prefix / suffix / upper relabels
+                if not m_:
+                    return x
+                core = ren[m_.group(2).lower()]
+                return m_.group(1) + (core.upper() if m_.group(2).isupper() else core) + m_.group(3)
+            if isinstance(x, list):
+                return [rn(v) for v in x]
+            if isinstance(x, dict):
+                isop = 'op' in x      # the field names of an operation record are not column names
+                y = {(k_ if isop else rn(k_)): ('item' if k_ == 'via' else rn(v)) for k_, v in x.items()}
+                return y
+            return x
+        case = rn(case)
+    return case
 
 
 # ------------------------------------------------------------------ plumbing
